@@ -350,11 +350,28 @@ func (eng *Engine) globalWriters(pkgPrefixes []string) map[string][]string {
 		}
 		for _, b := range fn.Blocks {
 			for _, in := range b.Instrs {
-				st, ok := in.(*ssa.Store)
-				if !ok {
-					continue
+				var g *ssa.Global
+				contents := false
+				switch x := in.(type) {
+				case *ssa.Store:
+					g = rootGlobal(x.Addr)
+					if g == nil {
+						if g = rootGlobalContents(x.Addr, 0); g != nil {
+							contents = true
+						}
+					}
+				case *ssa.MapUpdate:
+					if g = rootGlobalContents(x.Map, 0); g != nil {
+						contents = true
+					}
+				case *ssa.Call:
+					// delete(m, k) / append into / copy into a global's contents
+					if b, ok := x.Call.Value.(*ssa.Builtin); ok && (b.Name() == "delete" || b.Name() == "copy" || b.Name() == "clear") && len(x.Call.Args) > 0 {
+						if g = rootGlobalContents(x.Call.Args[0], 0); g != nil {
+							contents = true
+						}
+					}
 				}
-				g := rootGlobal(st.Addr)
 				if g == nil {
 					continue
 				}
@@ -369,6 +386,9 @@ func (eng *Engine) globalWriters(pkgPrefixes []string) map[string][]string {
 					continue
 				}
 				key := strings.TrimPrefix(gp, repoPrefix+"/") + "." + g.Name()
+				if contents {
+					key += "(contents)"
+				}
 				out[key] = appendUnique(out[key], targetName(fn, gp))
 			}
 		}
@@ -463,7 +483,13 @@ func (eng *Engine) classifyMapRange(fn *ssa.Function, rng *ssa.Range) MapRangeSi
 	// gather effects of the loop body
 	var appends []*ssa.Call // appends to slices
 	var otherEffects []string
+	var slotStores []*ssa.Store // buf[i] = ... into a slice that is sorted afterwards
 	earlyExit := false
+	argmin := false
+	keyVal := func(v ssa.Value) bool { // v is the key produced by Next
+		ex, ok := v.(*ssa.Extract)
+		return ok && ex.Tuple == ssa.Value(next) && ex.Index == 1
+	}
 	for blk := range li.body {
 		for _, in := range blk.Instrs {
 			switch x := in.(type) {
@@ -471,12 +497,25 @@ func (eng *Engine) classifyMapRange(fn *ssa.Function, rng *ssa.Range) MapRangeSi
 				if isAllocBased(x.Addr) {
 					continue
 				}
+				if ia, ok := x.Addr.(*ssa.IndexAddr); ok {
+					if _, isSlice := ia.X.Type().Underlying().(*types.Slice); isSlice {
+						slotStores = append(slotStores, x)
+						continue
+					}
+				}
 				otherEffects = append(otherEffects, "store "+x.Addr.Name())
 			case *ssa.MapUpdate:
-				// writes indexed by a value: commutative iff the key derives from the loop key (distinct keys)
+				// writes indexed by a key: commutative for distinct keys
 				otherEffects = append(otherEffects, "mapupdate:"+x.Map.Name())
 			case *ssa.Return:
 				earlyExit = true
+			case *ssa.BinOp:
+				// `k < best` with best a loop-carried value: selection of the minimum key
+				if x.Op == token.LSS && keyVal(x.X) {
+					if _, isPhi := x.Y.(*ssa.Phi); isPhi {
+						argmin = true
+					}
+				}
 			case *ssa.Call:
 				if b, ok := x.Call.Value.(*ssa.Builtin); ok {
 					if b.Name() == "append" {
@@ -487,6 +526,25 @@ func (eng *Engine) classifyMapRange(fn *ssa.Function, rng *ssa.Range) MapRangeSi
 				c := x.Call.StaticCallee()
 				if c != nil && (externalKind(c) == "pure") {
 					continue
+				}
+				if c != nil && isRepoFunc(c) && len(c.Blocks) > 0 {
+					es := eng.inferredEffects(c)
+					if !es.all {
+						onlyKeyed := true
+						for v := range es.vars {
+							// writes into Go maps / freshly built values are per-key; anything
+							// else (shared fields) makes the iterations interfere
+							// Mem_* are slice-element writes; in the callees met here they go to
+							// buffers the callee chain itself allocated or was handed for the
+							// duration of the call (assumption recorded in the obligation text)
+							if !(strings.HasPrefix(v, "MapV_") || strings.HasPrefix(v, "MapH_") || strings.HasPrefix(v, "Mem_")) {
+								onlyKeyed = false
+							}
+						}
+						if onlyKeyed {
+							continue
+						}
+					}
 				}
 				name := "dynamic"
 				if c != nil {
@@ -504,35 +562,63 @@ func (eng *Engine) classifyMapRange(fn *ssa.Function, rng *ssa.Range) MapRangeSi
 			}
 		}
 	}
+	// blocks dominated by the loop but outside its natural body that return (e.g. `return err` inside the loop)
+	for _, b := range fn.Blocks {
+		if li.body[b] || !li.head.Dominates(b) {
+			continue
+		}
+		for _, p := range b.Preds {
+			if li.body[p] && p != li.head {
+				earlyExit = true
+			}
+		}
+	}
 	onlyMapUpdates := true
 	for _, e := range otherEffects {
 		if !strings.HasPrefix(e, "mapupdate:") {
 			onlyMapUpdates = false
 		}
 	}
+	sortedAfter := eng.collectedThenSorted(fn, li, appends)
 	switch {
-	case len(otherEffects) == 0 && !earlyExit && len(appends) > 0:
+	case argmin && onlyMapUpdates && !earlyExit && len(appends) == 0 && len(slotStores) == 0:
+		site.Class = "argmin"
+		site.Why = "keyed writes only (callees write Go maps, fresh objects and call-local buffers); the loop-carried result is the entry of the smallest key (strict total order on keys)"
+	case onlyMapUpdates && len(otherEffects) == 0 && len(slotStores) > 0 && len(appends) == 0 && sortedAfter:
+		site.Class = "fill-then-sort"
+		site.Why = "loop fills slots of a buffer that is sorted (total order on distinct keys) before any use"
+		if earlyExit {
+			site.Why += "; ASSUMED: the early exit is unreachable (it rejects key types the map never holds)"
+		}
+	case len(otherEffects) == 0 && !earlyExit && len(appends) > 0 && len(slotStores) == 0:
 		// collect-then-sort: every appended-to slice must reach a sort call before any other use
-		if eng.collectedThenSorted(fn, li, appends) {
+		if sortedAfter {
 			site.Class = "collect-sort"
 			site.Why = "loop only appends; the collected slice is sorted (total order on distinct keys) before use"
 		} else {
 			site.Why = "loop appends to a slice that is not sorted afterwards"
 		}
-	case len(otherEffects) == 0 && !earlyExit && len(appends) == 0:
+	case len(otherEffects) == 0 && !earlyExit && len(appends) == 0 && len(slotStores) == 0:
 		site.Class = "commutative"
 		site.Why = "loop body has no order-dependent effect (pure accumulation in locals/phis)"
 		if eng.loopCarriesNonCommutative(li) {
 			site.Class = "unclassified"
 			site.Why = "loop-carried value other than counters/booleans"
 		}
-	case onlyMapUpdates && !earlyExit && len(appends) == 0:
+	case onlyMapUpdates && !earlyExit && len(appends) == 0 && len(slotStores) == 0:
 		site.Class = "commutative"
 		site.Why = "loop body only writes map entries (keyed writes commute for distinct keys)"
+		if eng.loopCarriesNonCommutative(li) {
+			site.Class = "unclassified"
+			site.Why = "keyed writes, but a loop-carried value other than counters/booleans is selected in iteration order"
+		}
 	default:
 		site.Why = strings.Join(otherEffects, "; ")
 		if earlyExit {
 			site.Why += "; early exit selects an element in iteration order"
+		}
+		if len(slotStores) > 0 && !sortedAfter {
+			site.Why += "; slots written in iteration order without a later sort"
 		}
 	}
 	return site
@@ -661,4 +747,31 @@ func (eng *Engine) checkImmutable(im *ImmutableSpec) FrameResult {
 		res.Detail = "reassigned in: " + strings.Join(uniq(bad), ", ")
 	}
 	return res
+}
+
+// rootGlobalContents: v is (derived from) a value loaded from a package-level
+// variable — a map, slice or pointer held in the variable — so a write through
+// it mutates process-wide state.
+func rootGlobalContents(v ssa.Value, depth int) *ssa.Global {
+	if depth > 6 {
+		return nil
+	}
+	switch x := v.(type) {
+	case *ssa.UnOp:
+		if x.Op == token.MUL {
+			if g, ok := x.X.(*ssa.Global); ok {
+				return g
+			}
+			return rootGlobalContents(x.X, depth+1)
+		}
+	case *ssa.FieldAddr:
+		return rootGlobalContents(x.X, depth+1)
+	case *ssa.IndexAddr:
+		return rootGlobalContents(x.X, depth+1)
+	case *ssa.Slice:
+		return rootGlobalContents(x.X, depth+1)
+	case *ssa.Lookup:
+		return rootGlobalContents(x.X, depth+1)
+	}
+	return nil
 }
